@@ -260,9 +260,15 @@ Proof.
     + split; [unfold elems; rewrite map_length; exact Hn|]. apply Forall_forall. intros e He. unfold elems in He.
       apply in_map_iff in He. destruct He as [v [<- Hv]]. apply (Helem v Hv).
     + pose proof (missing_arr_len col) as Hmm. destruct (missing_arr col); cbn; tauto.
-  - reflexivity.
+  - unfold p. apply upcast_prop_vlen_id. apply Forall_forall. intros x Hx.
+    assert (Hdx : v_dt x = d) by (eapply Forall_forall in Hdts; [exact Hdts | apply in_map; exact Hx]).
+    rewrite Hdx. destruct Hok as [->|[->|[->|[->| ->]]]]; discriminate.
   - intros name Hname. unfold encodable. cbn [fst snd]. unfold create_props_metadata, encode_prop.
-    assert (Hup : upcast_prop p = p) by reflexivity. rewrite Hup. cbn [p_vals p].
+    assert (Hup : upcast_prop p = p).
+    { unfold p. apply upcast_prop_vlen_id. apply Forall_forall. intros x Hx.
+      assert (Hdx : v_dt x = d) by (eapply Forall_forall in Hdts; [exact Hdts | apply in_map; exact Hx]).
+      rewrite Hdx. destruct Hok as [->|[->|[->|[->| ->]]]]; discriminate. }
+    rewrite Hup. cbn [p_vals p].
     destruct elems as [|e0 er] eqn:Ee; [contradiction|]. rewrite <- Ee in *.
     assert (Hde0 : v_dt e0 = d) by (eapply Forall_forall in Hdts; [exact Hdts | rewrite Ee; left; reflexivity]).
     assert (Hsame : forallb (fun x => dtype_eqb (v_dt x) (v_dt e0)) er = true).
